@@ -2,7 +2,7 @@
 # usage: tools/sweep_mutants.sh [name-glob]   — run every seeded change against its property's quick check WITHOUT touching /repo or /verif:
 # a copy of /verif (with its .lake) and a scratch worktree of /repo HEAD are made under /tmp/vsweep; each patch is applied to the
 # worktree, the copy's ./check runs with VERIF_REPO pointing at it, the patch is undone. Results: /verif/seeded/RESULTS.jsonl
-GLOBS="${@:-*}"
+GLOBS="${@:-C*}"
 S=/tmp/vsweep
 rm -rf $S/verif; mkdir -p $S
 git -C /repo worktree remove --force $S/repo >/dev/null 2>&1; rm -rf $S/repo
